@@ -175,8 +175,11 @@ type World struct {
 	tasks      []*Task
 	cur        *Task
 	multi      bool
-	Deadlocked bool
-	Deadlocks  int
+	// KernelCalls counts entries into the stub kernel (every entry point
+	// yields first); oracles use it as a progress measure.
+	KernelCalls int
+	Deadlocked  bool
+	Deadlocks   int
 	dead       bool
 	TaskPanics []any
 
@@ -547,6 +550,7 @@ func (w *World) BlockedTasks() []string {
 // Yield is a scheduling point: in a multi-task world the tape decides which
 // runnable task continues. No-op (and no draw) in a single-task world.
 func (w *World) Yield(where string) {
+	w.KernelCalls++
 	if !w.multi || w.dead {
 		return
 	}
